@@ -11,6 +11,9 @@ import norm
 import render
 import tlc
 
+# TLC -simulate is seeded (VERIF_SEED): runs are reproducible
+SIM_SEED = int(__import__("os").environ.get("VERIF_SEED", "1"))
+
 KEYS = ["k", "j"]
 
 
@@ -119,7 +122,7 @@ def schedules_for(scenarios, wd, atomic, simulate=None, per_scenario_cap=None, r
         sc, name = job
         extra = []
         if simulate:
-            extra = ["-simulate", "num=%d" % simulate, "-depth", "400"]
+            extra = ["-simulate", "num=%d" % simulate, "-depth", "400", "-seed", str(SIM_SEED), "-aril", "0"]
         rc, out, secs = tlc.run_tlc(name + ".tla", name + ".cfg", workers=1, timeout=timeout, extra=extra,
                                     heap="2g", cwd=sdir)
         if "Error:" in out and "EmitSchedule" not in out:
